@@ -481,6 +481,9 @@ def register_modules(
         if (
             not any_match(name, skip_layers)
             and not any_match(module_name, skip_layers)
+            # module_name is lower case so also try the class name as is
+            # otherwise a pattern spelled like the class never matches
+            and not any_match(module.__class__.__name__, skip_layers)
             and requires_grad(module)
         ):
             if module_name == 'ColumnParallelLinear'.lower():
